@@ -198,6 +198,10 @@ func ecdhKey(c *ctx) (key.Key, oracleVals) {
 	if c.r.bool() {
 		k[iana.KeyParameterKid] = c.r.bytes(4)
 	}
+	if c.r.bool() {
+		// the key-agreement algorithms a key may name: ECDH-ES / ECDH-SS with HKDF (-25 .. -28) or with key wrap (-29 .. -34)
+		k[iana.KeyParameterAlg] = -25 - c.r.intn(10)
+	}
 	return k, oracleVals{dhOK: err == nil}
 }
 
@@ -566,6 +570,11 @@ func streamOps(c *ctx) {
 				ops = nil
 			}
 			rep = c.r.intn(14)
+			if r.coq == "FEcdh" && c.r.intn(3) == 0 {
+				// operations of the neighbouring families (wrap / unwrap key), alone or next to the derive operations
+				ops = pick(c.r, [][]int{{5}, {6}, {5, 6}, {7, 6}, {8, 5}, {7, 8, 5}, {6, 7}, {5, 6, 7, 8}})
+				rep = pick(c.r, []int{0, 1, 2, 3})
+			}
 		}
 		k, orc := r.mk()
 		absent := !exhaustive && c.r.intn(6) == 0
@@ -634,6 +643,17 @@ func streamOps(c *ctx) {
 						}
 					default:
 						nl = append([]int{}, r.famOps...)
+					}
+					if c.r.intn(5) == 0 {
+						// operations foreign to the family only (the F15 lists, which also hold the operation, are probed separately)
+						nl = pick(c.r, [][]int{{5}, {6}, {5, 6}, {3}, {9, 10}, {1}})
+						for _, o := range nl {
+							for _, f := range r.famOps {
+								if o == f {
+									nl = []int{11}
+								}
+							}
+						}
 					}
 					k.SetOps(nl...)
 					if shared {
